@@ -412,6 +412,11 @@ Definition C12_check := check_with (fun c r =>
                      negb (match k_parent (r_cache r) with Some p => status_phase_seen c p (r_events r) | None => true end)
                   then Some "status-not-attempted-after-child-failure" else None))) proj_all true.
 
+(* C19, at the controller: what the sync does with the hook transport's verdicts (429 => requeue after the
+   advertised delay and no error; any other failure => error and back-off), for the plain path and for the
+   parallel per-revision calls of a rolling update.  Same judgement as C12's. *)
+Definition C19c_check := C12_check.
+
 (* ---------- C08: healthy rollouts finish and clean up; never wait on a healthy child ---------- *)
 Definition status_write_cond (c : ccfg) (parent : json) (evs : list ev) : option json :=
   match rev (filter (fun e => match is_api e with
